@@ -23,7 +23,7 @@ use crate::util::run::*;
 pub const RULE: &str = "per case: an interface on Ethernet / raw IP / IEEE 802.15.4 with TCP listening+connecting+established (scripted handshake), 2 UDP, 3 ICMP (ident, UDP port, TCP port), raw v4+v6, DNS with pending unicast and mDNS queries, DHCPv4 (Ethernet), multicast groups, IPv4 and 6LoWPAN reassembly; 1..64 stimuli of one generator (bytes | valid | mutants | replies | seeds; plus a configuration sweep and three directed scenarios) interleaved with time advances 0..120 s, delivered through Interface::poll or poll_ingress_single+poll_egress; every poll (and every poll_at in between) under catch_unwind + transmit cap 40000 + 15 s watchdog; afterwards ARP/NS and ICMP echo probes from a never-used identity must be answered. A class is medium | protocol of the stimulus | how the stack reacted (frame kind emitted, socket delta, silence).";
 
 pub const ASSUMPTIONS: &[&str] = &[
-    "SLAAC is off (not in the configuration list of C03; C13 covers it); the interface keeps static addresses (the application does not apply DHCP leases), so 'one of its addresses' is well defined for the probe",
+    "SLAAC is enabled in one configuration in three (hostile router advertisements then reach iface/slaac.rs); the interface keeps its static addresses (SLAAC only adds and removes addresses it derived itself, the application does not apply DHCP leases), so 'one of its addresses' is well defined for the probe",
     "IFACE_MAX_ADDR_COUNT is 2 in this build: the interface owns two of {192.168.1.2/24, fe80::2/64, 2001:db8::2/64, EUI-64 link-local}",
     "802.15.4 devices are modelled with MTU 127 (classic PHY) and 2047 (802.15.4g SUN PHY); 'up to the device MTU' is read per device",
     "on 802.15.4 TCP/DNS use IPv6 only; multicast groups are joined in two thirds of the 802.15.4 cases (before the MLD-over-6LoWPAN fix joining one made the first poll panic)",
